@@ -103,6 +103,11 @@ func (c *TermCtx) match(p, g *Term, bv map[int]bool, b map[*Term]*Term) bool {
 	if p.Op != g.Op || p.Name != g.Name || len(p.Args) != len(g.Args) || p.Sort != g.Sort || p.P1 != g.P1 || p.P2 != g.P2 {
 		return false
 	}
+	// read of a row through a heap update with symbolic refs: select(select(store(h, r, A), r'), i)
+	// may be a read of A; instantiating on it is harmless when it is not
+	if p.Op == "select" && !p.Args[0].open && p.Args[0] != g.Args[0] && mayBeRow(g.Args[0], p.Args[0], 0) {
+		return c.match(p.Args[1], g.Args[1], bv, b)
+	}
 	for i := range p.Args {
 		if !c.match(p.Args[i], g.Args[i], bv, b) {
 			return false
@@ -300,4 +305,34 @@ func (c *TermCtx) relax(t *Term, pos bool) (*Term, bool) {
 		return c.Implies(a, b), true
 	}
 	return nil, false
+}
+
+// mayBeRow: g is syntactically an array term that can evaluate to row a
+// (a itself, a read of a heap in which a was stored, or an ite with such a branch).
+func mayBeRow(g, a *Term, depth int) bool {
+	if g == a {
+		return true
+	}
+	if depth > 6 {
+		return false
+	}
+	switch g.Op {
+	case "select":
+		h := g.Args[0]
+		for h.Op == "store" {
+			if h.Args[2] == a || mayBeRow(h.Args[2], a, depth+1) {
+				return true
+			}
+			h = h.Args[0]
+		}
+		if h.Op == "ite" {
+			return mayBeRow(&Term{Op: "select", Args: []*Term{h.Args[1], g.Args[1]}}, a, depth+1) ||
+				mayBeRow(&Term{Op: "select", Args: []*Term{h.Args[2], g.Args[1]}}, a, depth+1)
+		}
+	case "ite":
+		return mayBeRow(g.Args[1], a, depth+1) || mayBeRow(g.Args[2], a, depth+1)
+	case "store":
+		return mayBeRow(g.Args[0], a, depth+1)
+	}
+	return false
 }
